@@ -308,12 +308,25 @@ def rule_R16_copy(text):
         recv = text[rs:mt.start()].strip()
         arg = text[op + 1:cl]
         old = text[rs:cl + 1]
+        if not re.fullmatch(r'\w+', recv):
+            recv = '&mut ' + recv      # a place expression such as `output[..k]`
         text = text[:rs] + _pad_newlines(old, 'verif_copy_from_slice(%s, %s)' % (recv, arg.strip())) + text[cl + 1:]
         n += 1
     return text, n
 
 
-RULES = [('R16', rule_R16_copy), ('R7', rule_R7_sqrt), ('R5', rule_R5_strip), ('R2', rule_R2_unchecked), ('R34', rule_R34_asserts), ('R6', rule_R6_minmax)]
+def rule_R10_gates(text):
+    """is_x86_feature_detected!("x.y") -> verif_cpu_has_x_y();  TypeId::of::<X>() -> verif_type_id::<X>()"""
+    n = 0
+    def cpu(mm):
+        return 'verif_cpu_has_' + re.sub(r'\W', '_', mm.group(1)) + '()'
+    text, k = re.subn(r'\bis_x86_feature_detected!\(\s*"([^"]+)"\s*\)', cpu, text)
+    n += k
+    text, k = re.subn(r'\bTypeId::of::<', 'verif_type_id::<', text)
+    return text, n + k
+
+
+RULES = [('R10', rule_R10_gates), ('R16', rule_R16_copy), ('R7', rule_R7_sqrt), ('R5', rule_R5_strip), ('R2', rule_R2_unchecked), ('R34', rule_R34_asserts), ('R6', rule_R6_minmax)]
 
 
 # --------------------------------------------------------------------------------------------
